@@ -25,8 +25,73 @@ fn na(s: &mut Src, c: u8, want_write: bool) -> Op {
     }
 }
 
+/// A cell handed over through 1-2 hops of flags; every publish is {release store | release-ish fence
+/// + relaxed store | relaxed store}, every consume {acquire await | relaxed await + acquire-ish
+/// fence | relaxed await}; a middle thread may use one AcqRel / SeqCst fence for both directions.
+pub fn race_chain(s: &mut Src) -> Program {
+    let hops = s.range(1, 2);
+    let rel_f = [MO::Rel, MO::AcqRel, MO::Sc];
+    let acq_f = [MO::Acq, MO::AcqRel, MO::Sc];
+    let publish = |s: &mut Src, ops: &mut Vec<Op>, flag: u8, fenced: bool| match s.pick(4) {
+        0 => ops.push(Op::Store { a: flag, v: 1, o: s.of(&[MO::Rel, MO::Sc]) }),
+        1 | 2 => {
+            if !fenced {
+                ops.push(Op::Fence { o: s.of(&rel_f) });
+            }
+            ops.push(Op::Store { a: flag, v: 1, o: MO::Rlx });
+        }
+        _ => ops.push(Op::Store { a: flag, v: 1, o: MO::Rlx }),
+    };
+    let consume = |s: &mut Src, ops: &mut Vec<Op>, flag: u8| -> bool {
+        let spin = s.chance(1, 2);
+        match s.pick(4) {
+            0 => {
+                ops.push(Op::Await { a: flag, v: 1, o: s.of(&[MO::Acq, MO::Sc]), spin });
+                false
+            }
+            1 | 2 => {
+                ops.push(Op::Await { a: flag, v: 1, o: MO::Rlx, spin });
+                let f = s.of(&acq_f);
+                ops.push(Op::Fence { o: f });
+                f != MO::Acq
+            }
+            _ => {
+                ops.push(Op::Await { a: flag, v: 1, o: MO::Rlx, spin });
+                false
+            }
+        }
+    };
+    let mut threads: Vec<Vec<Op>> = vec![vec![]];
+    let mut t = vec![Op::CellWrite { c: 0 }];
+    publish(s, &mut t, 0, false);
+    threads.push(t);
+    for h in 1..hops {
+        let mut t = vec![];
+        let fenced = consume(s, &mut t, (h - 1) as u8);
+        publish(s, &mut t, h as u8, fenced);
+        threads.push(t);
+    }
+    let mut t = vec![];
+    consume(s, &mut t, (hops - 1) as u8);
+    t.push(na(s, 0, false));
+    threads.push(t);
+    let n = threads.len();
+    let mut main: Vec<Op> = (1..n).map(|t| Op::Spawn { t: t as u8 }).collect();
+    if s.chance(1, 3) {
+        for t in 1..n {
+            main.push(Op::Join { t: t as u8 });
+        }
+        main.push(Op::CellRead { c: 0 });
+    }
+    threads[0] = main;
+    Program { threads, rx_owner: 0, arc_owner: vec![] }
+}
+
 /// Atomic-synchronised race programs.
 pub fn race_prog(s: &mut Src) -> Program {
+    if s.chance(1, 4) {
+        return race_chain(s);
+    }
     let mut threads: Vec<Vec<Op>>;
     let shape = s.pick(8);
     match shape {
